@@ -117,6 +117,32 @@ def build(ctx):
     return True
 
 
+def _pins_difference(pid, props_src):
+    """names of the functions whose fingerprint in Gen/Pins.v differs from the list expected by <pid>_source_pinned (None if equal / not applicable)"""
+    try:
+        m = re.search(r"Theorem %s_source_pinned : CCT\.Gen\.Pins\.pinned_%s =\s*\[(.*?)\]\." % (pid, pid), props_src, re.S)
+        g = re.search(r"Definition pinned_%s : list \(ustr \* ustr\) := \[(.*?)\]\." % pid, open(os.path.join(COQ, "theories", "Gen", "Pins.v")).read(), re.S)
+        if not m or not g:
+            return None
+        pair = re.compile(r'\(U"([^"]+)", U"([^"]+)"\)')
+        want, got = dict(pair.findall(m.group(1))), dict(pair.findall(g.group(1)))
+        if want == got:
+            return None
+        diff = ["%s (changed)" % k for k in sorted(want) if k in got and got[k] != want[k]]
+        diff += ["%s (no longer reached / removed)" % k for k in sorted(want) if k not in got]
+        diff += ["%s (new in the call graph)" % k for k in sorted(got) if k not in want]
+        return diff
+    except Exception:  # noqa
+        return None
+
+
+def _without_pins(src, pid):
+    i, j = src.find("(* BEGIN SOURCE PINS"), src.find("(* END SOURCE PINS *)")
+    if i >= 0 and j >= 0:
+        src = src[:i] + src[j + len("(* END SOURCE PINS *)"):]
+    return src.replace("Print Assumptions %s_source_pinned.\n" % pid, "")
+
+
 EXTRA_VM_OBLIGATIONS = {"C19": [("CCT.proofs.Ed25519Vectors", "vectors_hold")]}
 THEOREM_RE = re.compile(r"^\s*(Theorem|Example)\s+([A-Za-z0-9_']+)", re.M)
 
@@ -135,6 +161,30 @@ def check_obligations(ctx, extra_files=()):
             # recompile the property file alone to capture its Print Assumptions output
             rc, out = sh("timeout 600 coqc -Q theories CCT -w -notation-overridden theories/props/%s.v" % pid, 700, COQ)
     ctx.obligations["log"] = out[-3000:]
+    pins_broken = None
+    if rc != 0:
+        # is it (only) the source pin?  then say which functions changed and still check the other obligations
+        pins_broken = _pins_difference(pid, open(src).read())
+        if pins_broken:
+            stripped = _without_pins(open(src).read(), pid)
+            tmpv = os.path.join(COQ, "theories", "props", "_%s_nopins.v" % pid)
+            try:
+                with open(tmpv, "w") as f:
+                    f.write(stripped)
+                with open(os.path.join(BUILD, ".lock"), "w") as lk:
+                    fcntl.flock(lk, fcntl.LOCK_EX)
+                    rc, out = sh("timeout 600 coqc -Q theories CCT -w -notation-overridden theories/props/_%s_nopins.v" % pid, 700, COQ)
+            finally:
+                for ext in (".v", ".vo", ".vok", ".vos", ".glob"):
+                    try:
+                        os.unlink(tmpv[:-2] + ext)
+                    except OSError:
+                        pass
+                try:
+                    os.unlink(os.path.join(COQ, "theories", "props", "._%s_nopins.aux" % pid))
+                except OSError:
+                    pass
+            ctx.obligations["first_error"] = "%s_source_pinned no longer holds: the logic of these functions differs from what the model was validated against: %s" % (pid, "; ".join(pins_broken)[:600])
     if rc != 0:
         ctx.obligations["broken"] = names
         ctx.obligations["discharged"] = []
@@ -143,6 +193,8 @@ def check_obligations(ctx, extra_files=()):
         return False
     # Print Assumptions blocks, in order of the Print commands
     printed = re.findall(r"^Print Assumptions\s+([A-Za-z0-9_']+)\.", open(src).read(), re.M)
+    if pins_broken:
+        printed = [n for n in printed if n != pid + "_source_pinned"]
     blocks = re.split(r"(?m)^(?=Closed under the global context|Axioms:)", out)
     blocks = [b for b in blocks if b.startswith("Closed under") or b.startswith("Axioms:")]
     closed, open_ = [], []
@@ -176,7 +228,9 @@ def check_obligations(ctx, extra_files=()):
             closed.append(thm)
         else:
             open_.append((thm, out3[-300:]))
-    notprinted = [n for n in names if n not in printed]
+    notprinted = [n for n in names if n not in printed and not (pins_broken and n == pid + "_source_pinned")]
+    if pins_broken:
+        open_.append((pid + "_source_pinned", "; ".join(pins_broken)[:400]))
     ctx.obligations["discharged"] = closed
     ctx.obligations["broken"] = [n for n, _ in open_] + notprinted
     ctx.obligations["axioms"] = open_
@@ -446,8 +500,13 @@ def finish(ctx, level_text=""):
             real.append((kind, d))
     status = 0
     vio_lines = []
-    concrete = [(k, d) for k, d in real if k == "property"]
-    others = [(k, d) for k, d in real if k != "property"]
+    # a failing input is (a) an input on which the implementation-level oracle of the property fails, or (b) an input on which the
+    # implementation departs from the model under the property's relation WHILE THE MODEL IS THE PROVEN ONE: every obligation except
+    # possibly the source pin is discharged.  If other obligations are broken (a regenerated part of the model changed, a proof no
+    # longer goes through) a model/implementation difference says nothing about the property by itself and is reported as unfound.
+    model_intact = set(ctx.obligations.get("broken", [])) <= {ctx.pid + "_source_pinned"}
+    concrete = [(k, d) for k, d in real if k == "property" or (k == "correspondence" and model_intact)]
+    others = [(k, d) for k, d in real if (k, d) not in [(a, b) for a, b in concrete]]
     if concrete:
         for k, d in concrete[:3]:
             vio_lines.append("VIOLATION property=%s replay=%s" % (ctx.pid, write_replay(ctx, k, d)))
